@@ -237,6 +237,16 @@ pub(crate) fn serialize_cdata<'a, N: Normalizer>(
                 }
                 closing_square_brackets_seen = 0;
             }
+            '\r' => {
+                // a CR inside a CDATA section would be read back as a line end
+                // (LF) and cannot be escaped there: write it as a character
+                // reference between two sections
+                for _ in 0..closing_square_brackets_seen {
+                    result.push(']');
+                }
+                closing_square_brackets_seen = 0;
+                result.push_str("]]>&#13;<![CDATA[");
+            }
             _ => {
                 // push any closing square brackets we've seen
                 for _ in 0..closing_square_brackets_seen {
